@@ -2,14 +2,14 @@
 #include "corpus.hpp"
 
 std::string Recipe::key() const {
-  return fmt("ch=%d rate=%ld q=%.4f mode=%d nom=%ld n=%lld sig=%d seed=%llu nc=%d bs64=%d cut=%d mute=%d", ch, rate, q, mode, nominal, (long long)n, sig, (unsigned long long)seed, ncomm, bs64, cut, mute);
+  return fmt("ch=%d rate=%ld q=%.4f mode=%d nom=%ld n=%lld sig=%d seed=%llu nc=%d bs64=%d cut=%d mute=%d trim=%d tk=%d", ch, rate, q, mode, nominal, (long long)n, sig, (unsigned long long)seed, ncomm, bs64, cut, mute, trim, tk);
 }
 void Recipe::to(Rec &r) const {
-  r.set("ch", ch).set("rate", rate).setf("q", q).set("mode", mode).set("nom", nominal).set("n", n).set("sig", sig).setu("seed", seed).set("nc", ncomm).set("bs64", bs64); if (cut) r.set("cut", cut); if (mute) r.set("mute", mute);
+  r.set("ch", ch).set("rate", rate).setf("q", q).set("mode", mode).set("nom", nominal).set("n", n).set("sig", sig).setu("seed", seed).set("nc", ncomm).set("bs64", bs64); if (cut) r.set("cut", cut); if (mute) r.set("mute", mute); if (trim) r.set("trim", trim).set("tk", tk);
 }
 Recipe Recipe::from(const Rec &r) {
   Recipe x; x.ch = (int)r.i("ch", 2); x.rate = r.i("rate", 44100); x.q = r.f("q", 0.4); x.mode = (int)r.i("mode", 0); x.nominal = r.i("nom", 0);
-  x.n = r.i("n", 20000); x.sig = (int)r.i("sig", 0); x.seed = r.u("seed", 1); x.ncomm = (int)r.i("nc", 2); x.bs64 = (int)r.i("bs64", 0); x.cut = (int)r.i("cut", 0); x.mute = (int)r.i("mute", 0);
+  x.n = r.i("n", 20000); x.sig = (int)r.i("sig", 0); x.seed = r.u("seed", 1); x.ncomm = (int)r.i("nc", 2); x.bs64 = (int)r.i("bs64", 0); x.cut = (int)r.i("cut", 0); x.mute = (int)r.i("mute", 0); x.trim = (int)r.i("trim", 0); x.tk = (int)r.i("tk", 3);
   return x;
 }
 
@@ -126,6 +126,13 @@ static void encode_link(Link &l) {
   }
   vorbis_block_clear(&vb); vorbis_dsp_clear(&vd); vorbis_comment_clear(&vc); vorbis_info_clear(&vi);
   if (r.cut > 0) { size_t c = std::min<size_t>((size_t)r.cut, l.audio.size() > 3 ? l.audio.size() - 3 : 0); l.audio.erase(l.audio.begin(), l.audio.begin() + c); }
+  if (r.trim > 0) {
+    size_t tk = (size_t)std::max(2, r.tk);
+    if (l.audio.size() < tk + 3 || l.audio[tk - 1].granule < 2) { l.ok = false; return; }
+    int64_t T = std::min<int64_t>(r.trim, l.audio[tk - 1].granule - 1); if (!(r.trim & 1)) T &= ~(int64_t)1;   // an even request stays even (half-rate positions are only well defined on an even grid)
+    if (T < 1) { l.ok = false; return; }
+    for (size_t j = 0; j < l.audio.size(); j++) { bool fin = (j % tk) == tk - 1 || j + 1 == l.audio.size(); if (fin) l.audio[j].granule = std::max<int64_t>(0, l.audio[j].granule - T); else l.audio[j].granule = -1; }
+  }
   if (r.bs64) {
     // 64-sample short blocks (C20 refusal clause; the bundled encoder cannot emit them): rewrite the short block size in the ID header.
     // That yields a *consistent* stream only if no audio packet other than the mandatory first one is a short block; then the
